@@ -650,6 +650,7 @@ def check_body(R, b, f, entries, RA, depth=0):
 
 def _check_pp(R, RA, g, gs, b, f, pp, pdesc, unit, role, depth, pnames):
     if True:
+        overstrict, nonstrict_seen = [], []
         found, wrong = None, []
         founds = []          # every acceptable guard: different arms of a `match` may each carry their own
         for (bi, op, lo, ro, ok) in gs:
@@ -679,6 +680,15 @@ def _check_pp(R, RA, g, gs, b, f, pp, pdesc, unit, role, depth, pnames):
             founds.append(fnd_)
             if found is None:
                 found = fnd_
+            # an endpoint may equal its bound (an insertion after the last line, an empty window / rectangle, a shift by the
+            # whole extent): a strict comparison of the bare value with the bare bound rejects that valid call
+            if role == "endpoint" and opn == "Lt" and strip(mine)[0] != "bin" and so[0] != "bin" and g.param_path(mine) is not None:
+                overstrict.append(show(("bin", op, lo, ro), pnames))
+            elif role == "endpoint" and opn == "Le" and strip(mine)[0] != "bin" and so[0] != "bin":
+                nonstrict_seen.append(1)
+        if overstrict and depth == 0:
+            R.inst(b.ident, "%s (%s endpoint): the bound itself is accepted (no strict comparison of the bare value with its bound)" % (pdesc, unit), False)
+            R.fail(b.ident, "%s:over-strict" % pdesc, "%s: %s is an endpoint - it may equal its bound (an insertion after the last line, an empty window or rectangle, a shift by the whole extent) - but it is compared strictly (`%s`): a valid call is rejected with a panic" % (b.ident, pdesc, overstrict[0]), b.where())
         via = None
         if not found and not wrong:
             # (a) ordered partner: `if X < Y { swap(&mut X, &mut Y) }` leaves Y <= X; a strict guard on X then bounds Y
